@@ -160,6 +160,10 @@ impl<'a> FGen<'a> {
             let what = if matches!(self.ex.f, Filt::None) && self.cfg.is_some() { "kalman" } else { "basic" };
             self.out.count(&format!("filt.panic.{what}"));
             self.out.oracle("C03", &format!("filter-panic@{at}"), &format!("{line} -> {obs}"));
+            if at.contains("NaN") {
+                // fixed's conversion refused a NaN: a command (or the estimate behind it) was not a number
+                self.out.oracle("C13", &format!("{what}-command-not-a-number"), &format!("{line} -> {obs}: the servo was about to turn NaN into a clock command"));
+            }
         }
         let cmds = self.ex.last_cmds.clone();
         if kind == "knew" || kind == "bnew" {
@@ -355,10 +359,63 @@ pub fn scenario(g: &mut FGen, rng: &Prng, max_len: usize) {
     }
 }
 
+/// zero-variance sample sets, directed: a peer delay (or a Sync / Delay pair) that reads exactly the same value many
+/// times under a step threshold that is not round in binary; after a score of repetitions the covariance in that
+/// direction is subnormal and its inverse overflows (the gain must not turn into NaN)
+pub fn scenario_constant_samples(g: &mut FGen, rng: &Prng) {
+    g.dead = false;
+    g.ops = 0;
+    let mut cfg = KCfg::default_cfg();
+    cfg.thr = (50 + rng.below(4951) as i128) * US + rng.below(1000) as i128 * NS;
+    let l = cfg.line();
+    g.cfg = Some(cfg);
+    g.emit(l);
+    if g.dead {
+        return;
+    }
+    let interval = *rng.pick(&[SEC / 8, SEC, 2 * SEC]);
+    let v: i128 = *rng.pick(&[0i128, 0, 100 * US, 1]);
+    let peer = rng.chance(2, 3);
+    let mut t: u128 = (1_700_000_000 * SEC) as u128;
+    let n = 25 + rng.below(40);
+    for _ in 0..n {
+        if g.dead {
+            return;
+        }
+        t += interval as u128;
+        let clk = t + rng.below(1 << 20) as u128;
+        if peer {
+            g.emit(format!("FLT m {t} - - {v} - - {clk} 0"));
+        } else {
+            // a Sync and a Delay measurement with identical raw offsets: the pair's noise sample is exactly zero
+            g.emit(format!("FLT m {t} {} - - {v} - {clk} 0", 0));
+            if g.dead {
+                return;
+            }
+            g.emit(format!("FLT m {} - {} - - {v} {} 0", t + 1000, 0, clk + 2000));
+        }
+    }
+    for _ in 0..3 {
+        if g.dead {
+            return;
+        }
+        t += interval as u128;
+        g.emit(format!("FLT m {t} {} - - {} - {} 0", 1000 * NS, 1000 * NS + v, t + 5000));
+    }
+    if !g.dead {
+        g.emit(format!("FLT demob {} 0", t + 10_000));
+    }
+    g.out.count("filt.constant-sample-scenarios");
+}
+
 pub fn generate(out: &mut Out, rng: &Prng, thorough: bool) {
     let scenarios = if thorough { 20_000 } else { 1_500 };
     let mut g = FGen { ex: FiltExec::default(), out, cfg: None, dead: false, ops: 0, last_line: String::new() };
-    for _ in 0..scenarios {
-        scenario(&mut g, rng, if thorough { 400 } else { 120 });
+    for i in 0..scenarios {
+        if i % 6 == 5 {
+            scenario_constant_samples(&mut g, rng);
+        } else {
+            scenario(&mut g, rng, if thorough { 400 } else { 120 });
+        }
     }
 }
